@@ -210,6 +210,14 @@ def build_spec(kind: str, mode: str, ctx: Any, tier: str) -> tuple[dict, dict]:
                 if u is not None:
                     units[ad.kw] = u
     ops = base_ops(kind)
+    # the reference of the defining origin (which every object of the specification then carries): values around the
+    # one-byte limits of the OBNAME fields
+    oref = ctx.choose('defining-origin-reference', [None, 127, 128, 200, 255, 256, 16384])
+    if oref is not None:
+        for op in ops:
+            if op.get('kind') == 'origin':
+                op['kw']['origin_reference'] = oref
+                break
     sname = {'set_name': set_name} if set_name else {}
     tname = 'TARGET'
     if position in ('after-bare', 'between-full'):
